@@ -206,6 +206,17 @@ func genFilterPlan(r *zsim.Rng) *filterPlan {
 	if r.Chance(1, 3) {
 		p.Lines.Trail = r.Range(1, 5)
 	}
+	if r.Chance(1, 6) {
+		// records that do not fit the matcher's scratch memory (2048 runes), kept as runes (non-ASCII), with
+		// upper-case and accented letters: whatever a matcher does to normalise them must happen on a copy
+		for k := r.Range(1, 3); k > 0; k-- {
+			var b strings.Builder
+			for n := r.Range(2100, 5000); n > 0; n-- {
+				b.WriteString(string([]rune("ABCDEFabcdefÄÖÜéñ  _-/")[r.Intn(22)]))
+			}
+			p.Lines.Extra = append(p.Lines.Extra, b.String())
+		}
+	}
 	if r.Chance(1, 5) {
 		p.Nth = []string{"1", "2", "2..", "-1", "1,3", "..2"}[r.Intn(6)]
 	}
